@@ -713,8 +713,35 @@ pub fn gen_main(args: &[String]) {
     let out = &args[3];
     let names = Names::load(dump);
     let sp = Spec::build();
-    let ndocs: usize = if args.len() > 4 { args[4].parse().unwrap() } else if tier == "thorough" { 1500 } else { 150 };
     let mut rng = SplitMix64(seed.wrapping_mul(0x9E3779B97F4A7C15) ^ 0xC17);
+    if args.len() > 4 && args[4] == "all" {
+        // one single-entry document per table entry (script number = entry number), sharded
+        let shard: usize = args.get(5).map(|x| x.parse().unwrap()).unwrap_or(0);
+        let nshards: usize = args.get(6).map(|x| x.parse().unwrap()).unwrap_or(1);
+        let mut text = String::new();
+        let mut built = 0usize;
+        for ei in 0..sp.entries.len() {
+            if ei % nshards != shard {
+                continue;
+            }
+            let mut r = SplitMix64(seed ^ (ei as u64).wrapping_mul(0x9E3779B97F4A7C15));
+            let Some(v) = pick_source(&sp, &sp.entries[ei], &mut r) else { continue };
+            let d = build(&names, &sp, &Plan { multi: false, entries: vec![(ei, v)] }, &mut r, ei % 4 == 0);
+            if d.entries.is_empty() {
+                continue;
+            }
+            built += 1;
+            let mut extra_ops: Vec<Op> = sp.vers.iter().map(|t| Op::CheckCompat(0, *t as u32)).collect();
+            let t = sp.vers[r.below(sp.vers.len() as u64) as usize] as u32;
+            extra_ops.push(Op::SetVersion(0, t));
+            extra_ops.push(Op::CheckCompat(0, v));
+            text.push_str(&d.script(ei, &extra_ops));
+        }
+        std::fs::write(out, text).unwrap();
+        println!("STAT docs={} entries_built={} ops=0", built, built);
+        return;
+    }
+    let ndocs: usize = if args.len() > 4 { args[4].parse().unwrap() } else if tier == "thorough" { 1500 } else { 150 };
     let mut text = String::new();
     let mut nent = 0usize;
     let mut kinds: BTreeMap<&str, usize> = BTreeMap::new();
